@@ -80,6 +80,17 @@ def impl(case):
     guard = synth.InputGuard(trajectory=traj)
     vol = trajectory_to_volume(traj, resolution=res)
     changed = guard.changed()
+    if 'long' not in case and c.shape[0] >= 2:
+        # a continuation run is appended and the volume asked for again at the same resolution: every sample of the longer run is counted
+        more = synth.make_traj(case['m'], ['Li'] * c.shape[1], c[::-1].copy())
+        traj2 = synth.make_traj(case['m'], ['Li'] * c.shape[1], c)
+        trajectory_to_volume(traj2, resolution=res), traj2.to_volume(resolution=res)
+        traj2.extend(more)
+        again = traj2.to_volume(resolution=res)
+        again_sum = int(again.data.sum())
+        again_ok = bool(np.array_equal(again.data, 2 * vol.data))
+    else:
+        again_sum, again_ok = None, True
     pos = np.array(traj.positions).reshape(-1, 3)
     out = {'lengths': lengths, 'res': res, 'dims': [int(d) for d in vol.dims], 'data': vol.data.ravel().tolist(),
            'pos': (pos * DEN).tolist() if 'long' not in case else (pos[:6] * DEN).tolist(), 'f2v': [vol.frac_coords_to_voxel(p).tolist() for p in pos[:6]],
@@ -101,6 +112,7 @@ def impl(case):
     out['v2f'] = v2f
     out['rt_bad'] = rt_bad
     out['inputs_changed'] = changed
+    out['again'] = [again_sum, again_ok]
     return out
 
 
@@ -147,6 +159,8 @@ def oracle(case, out):
             edge = L / n
             if not (out['res'] * (1 - 1e-12) <= edge < 2 * out['res']):
                 fs.append(('volume/edge-length', f'voxel edge {edge} for requested resolution {out["res"]}'))
+    if out.get('again') and out['again'][1] is False:
+        fs.append(('volume/stale-after-extend', f'after extend() with the same frames in reverse order to_volume() sums to {out["again"][0]}, expected twice {int(data.sum())} with twice the count in every voxel'))
     exact_len = [float(np.sqrt(sum(c * c for c in row))) for row in case['m']]
     for k, (L, n, v) in enumerate(zip(exact_len, dims, out['vsize'])):
         if abs(v - L / n) > 1e-12 * L:
